@@ -1,5 +1,7 @@
 import NcVerif.Driver.Proto
 import NcVerif.Model.RpcError
+import NcVerif.Model.ReplyDoc
+import NcVerif.Driver.XmlDocD
 namespace NcVerif.Driver
 open NcVerif NcVerif.Proto NcVerif.RpcError
 
@@ -27,6 +29,20 @@ def rpcErrorCmd (args : List String) : String :=
       | some (.single e) => s!"raised {match e.severity with | some s => strTok s | none => "-"} -"
       | some (.aggregate es sev) => s!"raised {strTok sev} {es.length}"
       | none => s!"reply {if ok r then 1 else 0} {(errors r).length}"
+    | _, _ => "bad-args"
+  | "doc" :: m :: patsT :: toks =>
+    -- the reply DOCUMENT: extraction of <ok/>, the rpc-error elements and their fields happens in the model (ReplyDoc.ofDoc)
+    match tokStrList patsT, xdNode 100000 toks with
+    | some pats, some (root, []) =>
+      let mode := if m = "0" then Mode.none else if m = "1" then Mode.errors else Mode.all
+      let r := ReplyDoc.ofDoc root
+      let fields := fun (e : Err) => String.intercalate ";" ([e.type, e.tag, e.severity, e.appTag, e.path, e.message].map fun o =>
+        match o with | some s => strTok s | none => "-") ++ (if e.hasInfo then ";p" else ";-")
+      let errs := listTok ((errors r).map fields)
+      match raises mode (mkPatterns pats) r with
+      | some (.single e) => s!"raised {match e.severity with | some s => strTok s | none => "-"} - {errs}"
+      | some (.aggregate es sev) => s!"raised {strTok sev} {es.length} {errs}"
+      | none => s!"reply {if ok r then 1 else 0} {(errors r).length} {errs}"
     | _, _ => "bad-args"
   | ["exempt", patsT, msgT] =>
     match tokStrList patsT, optTok msgT with
